@@ -13,7 +13,7 @@ import (
 
 func pt(op string, p any) {
 	if vsync.Controlled() {
-		vsync.Point(fmt.Sprintf("atomic-%s %p", op, p))
+		vsync.Point(fmt.Sprintf("atomic-%s #%d", op, vsync.ObjID(p)))
 	}
 }
 
